@@ -36,10 +36,11 @@ const (
 	Checks                            // -checks "SA*,-SA1019"
 	Windows                           // GOOS=windows (tgt_windows.go joins the package)
 	Tests                             // -tests=true (in-package test file of tgt with a flagged line; pulls in std)
+	PatTop                            // package pattern ./top instead of ./... (base, dep and mid are analysed for their facts only; tgt not at all)
 	NumBits = NumWSBits + iota
 )
 
-var BitNames = []string{"tgt-edit", "dep-deprecated", "dep-impure", "dep-maybenil", "root-conf", "tgt-conf", "bad-conf", "base-deprecated", "go1.20", "tags-x", "checks", "windows", "tests"}
+var BitNames = []string{"tgt-edit", "dep-deprecated", "dep-impure", "dep-maybenil", "root-conf", "tgt-conf", "bad-conf", "base-deprecated", "go1.20", "tags-x", "checks", "windows", "tests", "pattern-top"}
 
 func Describe(p int) string {
 	var s []string
@@ -72,7 +73,10 @@ func Files(p int) map[string]string {
 	if p&MaybeNil != 0 {
 		iface = "func Iface() any {\n\tif Sink > 0 {\n\t\treturn nil\n\t}\n\treturn &T{}\n}"
 	}
-	f["dep/dep.go"] = "// Package dep is the dependency.\npackage dep\n\nimport \"example.com/m/base\"\n\n// B is base.T under another name.\ntype B = base.T\n\n// NewB makes one.\nfunc NewB() B { return B{} }\n\n// T is a type.\ntype T struct{ X int }\n\n// Old is old.\n" + depr + "func Old() int { return 1 }\n\n// New is new.\nfunc New() int { return 2 }\n\n// Sink is a global.\nvar Sink int\n\n// Pure doubles.\n" + pure + "\n\n// Iface returns an interface.\n" + iface + "\n"
+	// every package below tgt and top has problems of its own (S1002 and U1000), so that a run
+	// in which it is only a dependency differs from one in which it is a root
+	own := "\nfunc flagged(b bool) bool { return b == true }\n"
+	f["dep/dep.go"] = "// Package dep is the dependency.\npackage dep\n\nimport \"example.com/m/base\"\n\n// B is base.T under another name.\ntype B = base.T\n\n// NewB makes one.\nfunc NewB() B { return B{} }\n\n// T is a type.\ntype T struct{ X int }\n\n// Old is old.\n" + depr + "func Old() int { return 1 }\n\n// New is new.\nfunc New() int { return 2 }\n\n// Sink is a global.\nvar Sink int\n\n// Pure doubles.\n" + pure + "\n\n// Iface returns an interface.\n" + iface + "\n" + own
 	// base is three import levels below tgt (tgt -> mid -> dep -> base); tgt reaches base.T.M
 	// through mid.Deep() without importing dep or base. The toggle rewrites a doc line in place,
 	// so base's export data and with it the build ids of dep and mid stay byte-identical: only
@@ -81,8 +85,8 @@ func Files(p int) map[string]string {
 	if p&BaseDepr != 0 {
 		bdepr = "// Deprecated: do not use M.\n"
 	}
-	f["base/base.go"] = "// Package base is the bottom of the chain.\npackage base\n\n// T is a type.\ntype T struct{}\n\n// M is a method.\n//\n" + bdepr + "func (T) M() int { return 1 }\n"
-	f["mid/mid.go"] = "// Package mid sits in the middle.\npackage mid\n\nimport \"example.com/m/dep\"\n\n// Get forwards dep.Iface.\nfunc Get() any { return dep.Iface() }\n\n// Twice applies dep.Pure twice.\nfunc Twice(x int) int { return dep.Pure(dep.Pure(x)) }\n\n// Deep hands out a value of a type declared three levels down.\nfunc Deep() dep.B { return dep.NewB() }\n"
+	f["base/base.go"] = "// Package base is the bottom of the chain.\npackage base\n\n// T is a type.\ntype T struct{}\n\n// M is a method.\n//\n" + bdepr + "func (T) M() int { return 1 }\n" + own
+	f["mid/mid.go"] = "// Package mid sits in the middle.\npackage mid\n\nimport \"example.com/m/dep\"\n\n// Get forwards dep.Iface.\nfunc Get() any { return dep.Iface() }\n\n// Twice applies dep.Pure twice.\nfunc Twice(x int) int { return dep.Pure(dep.Pure(x)) }\n\n// Deep hands out a value of a type declared three levels down.\nfunc Deep() dep.B { return dep.NewB() }\n" + own
 	extra := ""
 	if p&TgtEdit != 0 {
 		extra = "\tif b == false {\n\t\tx--\n\t}\n"
@@ -173,7 +177,11 @@ func Run(bin, dir, cachedir string, p int) (Outcome, error) {
 	} else if p&RootConf == 0 {
 		args = append(args, "-checks", "all")
 	}
-	args = append(args, "./...")
+	if p&PatTop != 0 {
+		args = append(args, "./top")
+	} else {
+		args = append(args, "./...")
+	}
 	cmd := exec.Command(bin, args...)
 	cmd.Dir = dir
 	shown := dir
